@@ -215,24 +215,29 @@ def setPath (u : URL) (p : Bytes) : Res URL :=
   (pathUnescape p).bind fun path =>
     .ok { u with path := path, rawPath := if escapePath path = p then [] else p }
 
+/-- the `?` handling of `parse`: (rest, ForceQuery, RawQuery) -/
+def splitQuery (rest0 : Bytes) : Bytes × Bool × Bytes :=
+  if hasSuffix [cQ] rest0 && rest0.count cQ = 1 then (rest0.take (rest0.length - 1), true, [])
+  else ((cut cQ rest0).1, false, (cut cQ rest0).2.getD [])
+
+/-- `parse` after the scheme and the query have been split off: opaque / authority / path -/
+def parseHier (scheme rest : Bytes) (u : URL) : Res URL :=
+  if !hasPrefix [cSlash] rest && scheme ≠ [] then .ok { u with opaq := rest } else
+  if !hasPrefix [cSlash] rest && (cut cSlash rest).1.contains cColon then .err "first-segment-colon" else
+  if (scheme ≠ [] || !hasPrefix [cSlash, cSlash, cSlash] rest) && hasPrefix [cSlash, cSlash] rest then
+    let a := rest.drop 2
+    let rest' := match (cut cSlash a).2 with | some t => cSlash :: t | none => []
+    (parseAuthority (cut cSlash a).1).bind fun r =>
+      setPath { u with hasUser := r.1, host := r.2 } rest'
+  else setPath u rest
+
 /-- `parse(rawURL, viaRequest=false)` -/
 def parseNoFrag (raw : Bytes) : Res URL :=
   if hasCTL raw then .err "ctl" else
   if raw = [42] then .ok { path := [42] } else
-  (getScheme raw).bind fun (scheme, rest0) =>
-    let u : URL := { scheme := lower scheme }
-    let (rest, u) :=
-      if hasSuffix [cQ] rest0 && rest0.count cQ = 1 then (rest0.take (rest0.length - 1), { u with forceQuery := true })
-      else let (r, q) := cut cQ rest0; (r, { u with rawQuery := q.getD [] })
-    if !hasPrefix [cSlash] rest && scheme ≠ [] then .ok { u with opaq := rest } else
-    if !hasPrefix [cSlash] rest && (cut cSlash rest).1.contains cColon then .err "first-segment-colon" else
-    if (scheme ≠ [] || !hasPrefix [cSlash, cSlash, cSlash] rest) && hasPrefix [cSlash, cSlash] rest then
-      let a := rest.drop 2
-      let (authority, tl) := cut cSlash a
-      let rest' := match tl with | some t => cSlash :: t | none => []
-      (parseAuthority authority).bind fun (hasUser, host) =>
-        setPath { u with hasUser := hasUser, host := host } rest'
-    else setPath u rest
+  (getScheme raw).bind fun sr =>
+    let q := splitQuery sr.2
+    parseHier sr.1 q.1 { scheme := lower sr.1, forceQuery := q.2.1, rawQuery := q.2.2 }
 
 /-- `url.Parse` -/
 def parseURL (raw : Bytes) : Res URL :=
